@@ -43,6 +43,23 @@ def sep_site(fn):
     slashed = re.search(r'format!\("\{cwd\}/"\)', pre) is not None and re.search(r"cwd\s*\.ends_with\('/'\)", pre) is not None
     return slashed
 
+def empty_site(fn):
+    """in the subdirectory branch: is an EMPTY target list (Some(vec![])) treated like no list (the current
+    directory) -- `Some(targets) if !targets.is_empty() => …, _ => vec![cwd…]` -- or mapped to an empty list
+    (`Some(targets) => …map…, None => vec![cwd…]`), which selects every path at the root?"""
+    b = body(common, "pub fn " + fn)
+    m = re.search(r'format!\("\{cwd\}\{t\}"\)', b)
+    if not m:
+        return None
+    pre = re.sub(r"\s+", "", b[:m.start()])[-160:]
+    post = re.sub(r"\s+", "", b[m.end():])[:120]
+    if re.search(r"Some\(targets\)if!targets\.is_empty\(\)=>\{?targets\.iter\(\)\.map\(\|t\|$", pre) and re.search(r"_=>vec!\[cwd", post):
+        return True
+    if re.search(r"Some\(targets\)=>targets\.iter\(\)\.map\(\|t\|$", pre) and re.search(r"None=>vec!\[cwd", post):
+        return False
+    return None
+
+
 def base_of(expr):
     e = re.sub(r"\s+", "", expr)
     if e in ("xvc_root", "xvc_root.absolute_path()", "&xvc_root"):
@@ -96,6 +113,7 @@ if m:
 cd, cf = dest_sites(copy, "get_copy_source_dest_store")
 md, mf = dest_sites(mv, "get_move_source_dest_store")
 vals = [("st_store_sep", site("store_sep", sep_site("filter_targets_from_store"))),
+        ("st_store_empty_cwd", site("store_empty_cwd", empty_site("filter_targets_from_store"))),
         ("st_disk_sep", site("disk_sep", sep_site("targets_from_disk"))),
         ("st_copy_dirdest", site("copy_dirdest", cd)), ("st_move_dirdest", site("move_dirdest", md)),
         ("st_copy_filedest", site("copy_filedest", cf)), ("st_move_filedest", site("move_filedest", mf)),
@@ -105,7 +123,7 @@ vals = [("st_store_sep", site("store_sep", sep_site("filter_targets_from_store")
 def coq(v, name):
     if isinstance(v, bool): return "true" if v else "false"
     if v is None:
-        return "false" if name.endswith("_sep") else "BProcess"
+        return "false" if name.endswith(("_sep", "_cwd")) else "BProcess"
     return v
 txt = "(* GENERATED by gen/cwd_sites.py from file/src/{common,copy,mv,track}/mod.rs -- do not edit. *)\n"
 txt += "From XV Require Import Cwd.Model.\n\n"
